@@ -6,5 +6,6 @@ INVARIANT InvRefs
 INVARIANT InvLaw
 INVARIANT InvCountBound
 INVARIANT InvLdc
+INVARIANT InvRenGrows
 INVARIANT EmitVec
 CHECK_DEADLOCK FALSE
